@@ -3,6 +3,7 @@
    matrices, constants and the orientation of every np.choose taken from the source). *)
 Require Import Reals QArith.
 Require Import MV.Base.RHelp MV.Gen.Colors_gen MV.Model.Stretch MV.Proof.ColorsProof.
+Require Import MV.Proof.ColorsInverse.
 Open Scope R_scope.
 
 Theorem C20_white_maps_to_D65_with_Y_1 :
@@ -47,3 +48,20 @@ Proof. exact stretch_monotone. Qed.
 Theorem C20_stretch_in_range : forall v vmin ptp lo hi, (0 < ptp)%Q -> (lo <= hi)%Q -> (vmin <= v)%Q -> (v <= vmin + ptp)%Q ->
   (lo <= stretch_px v vmin ptp lo hi)%Q /\ (stretch_px v vmin ptp lo hi <= hi)%Q.
 Proof. exact stretch_in_range. Qed.
+
+(* xyz2rgb inverts rgb2xyz: the conversions are "transfer function, then M" and "Minv, then the inverse transfer function"
+   (identities on the RE-TRANSLATED definitions), the transfer functions are mutually inverse (above), and Minv (M v) is within
+   1/1000 of v on linear RGB in [0,1] -- the rounding of the 4-digit matrices *)
+Theorem C20_rgb2xyz_is_transfer_then_matrix : forall r g b,
+  rgb2xyz_px r g b = M_apply (srgb_to_linear r) (srgb_to_linear g) (srgb_to_linear b).
+Proof. exact rgb2xyz_is_M. Qed.
+
+Theorem C20_xyz2rgb_is_matrix_then_inverse_transfer : forall x y z,
+  xyz2rgb_px x y z = let '(a, b, c) := Minv_apply x y z in (linear_to_srgb a, linear_to_srgb b, linear_to_srgb c).
+Proof. exact xyz2rgb_is_Minv. Qed.
+
+Theorem C20_matrices_inverse_within_rounding : forall lr lg lb, 0 <= lr <= 1 -> 0 <= lg <= 1 -> 0 <= lb <= 1 ->
+  let '(x, y, z) := M_apply lr lg lb in
+  let '(a, b, c) := Minv_apply x y z in
+  Rabs (a - lr) <= 1 / 1000 /\ Rabs (b - lg) <= 1 / 1000 /\ Rabs (c - lb) <= 1 / 1000.
+Proof. exact matrices_inverse_within_1e3. Qed.
